@@ -336,6 +336,19 @@ X_Project(e) ==
              /\ Len(e.r.devx) = e.a.n /\ AllLeq(e.r.devx, 1000) /\ AllLeq(e.r.devy, 1000)   \* spherical Mercator on R = 6378137 within 1e-6 m
              /\ Len(e.r.dlon) = e.a.n /\ AllLeq(e.r.dlon, 20) /\ AllLeq(e.r.dlat, 20))      \* back within 2e-10 degree
 
+\* ---- C19 ------------------------------------------------------------------
+\* r = <<result of the call run alone, result of the same call run concurrently>> (sorted lists)
+X_Conc(e) == Ok(e) /\ e.r[1] = e.r[2]
+
+\* ---- laws between real calls (value ranges beyond TLC's integers) ---------------
+\* r = <<left-hand side, right-hand side>>, both computed by the real library and
+\* recorded as strings; e.a.law names the law (see harness/fam_laws.go):
+\*   ZoomOutCompose, LookupThenZoomOut, HorizontalMinMaxCompose, InOutMergeIdentity (C03 / C09),
+\*   ShiftComposeLarge (C07), AltitudeKeySubVoxelEnds, KeyToZSubKeyEnds, AltitudeKeyTranslate,
+\*   KeyToZTranslate, TileIsKeyRange (C13) (C12: translation invariance ties indices / offsets beyond 2^28 to the small
+\*   ones whose band X_ZToKey / X_KeyToZ evaluate exactly)
+X_Law(e) == Ok(e) /\ e.r[1] = e.r[2] /\ e.r[1] # <<>>
+
 \* ---- dispatch -------------------------------------------------------------
 Explains(e) ==
   /\ e.bad = ""
